@@ -17,7 +17,7 @@ RULE = ("noiseless sequences on emu-mps, 2-6 atoms (thorough: up to 8): ground-r
         "max_krylov_dim; optimize_qubit_ordering on/off with shuffled labels (so the internal permutation is non-trivial) "
         "; interaction_cutoff; user interaction matrix; initial MPS from amplitudes; oracle: the independent dense expm "
         "chain of C01; compared: occupation, correlation matrix, energy, second moment, variance (always), state, "
-        "fidelity, expectation (reordering off); outside the regimes where two-site TDVP is exact, up to 5 (thorough 6) "
+        "fidelity, expectation (reordering off); outside the regimes where two-site TDVP is exact, runs of up to 8 "
         "atoms are compared with a dense numpy model of the documented TDVP step run in the same internal order "
         "(tolerance + half the model's own distance to the exact evolution); when max_bond_dim binds only validity clauses "
         "(norm, ranges, bond <= cap); non-trivial = non-zero interaction and drive, >=3 steps, final state differs from the initial one; "
@@ -37,7 +37,7 @@ def budget(tier):
 def _cases(draw, n_max=6):
     basis = draw(st.sampled_from(["rydberg", "rydberg", "rydberg", "XY"]))
     regime = draw(st.sampled_from(["exact", "exact", "exact", "exact", "free", "approx", "approx"]))
-    n_hi = 4 if regime == "exact" else (draw(st.sampled_from([5, 5, n_max])) if regime == "approx" else n_max)
+    n_hi = 4 if regime == "exact" else n_max
     seq = draw(gen.seq_cases(n_min=2 if regime != "approx" else 3, n_max=n_hi, basis=basis, allow_mod=True, max_ops=3, dur_hi=80,
                              dmin=5.5, dmax=11.0))
     n = len(seq["reg"]["ids"])
@@ -238,8 +238,8 @@ def check_case(case) -> Result:
     # two, which moves them apart by a fraction of TDVP's own error: half the model's distance to the exact evolution
     # is added to the tolerance.
     model_ref = None
-    n_model = 5 if case.get("tier", "quick") == "quick" else 6
-    if not exact and not cap_binds and len(refs) == 1 and n <= n_model and seqc["basis"] == "rydberg":
+    n_model = 8  # dense 2^8: a TDVP-model step costs milliseconds with single-threaded BLAS
+    if not exact and len(refs) == 1 and n <= n_model:
         import copy
 
         from pbt.oracles import tdvp_model
@@ -247,7 +247,8 @@ def check_case(case) -> Result:
         perm = p.tolist() if perm_nontrivial else None
         mstates, mbonds = tdvp_model.run(ref0, psi0=psi0, precision=prec, max_bond=cap if cap is not None else 1024, perm=perm)
         model_ref = copy.copy(ref0)
-        model_ref.states = mstates
+        # observables are reported for the normalised state (a binding bond cap lowers the norm)
+        model_ref.states = {k_: v_ / max(np.linalg.norm(v_), 1e-300) for k_, v_ in mstates.items()}
     r.label("regime:" + ("exact" if exact else ("tdvp_model" if model_ref is not None else "validity_only")))
 
     def best_err(t_rel, v, ref_value, scale_of):
